@@ -567,6 +567,11 @@ fn hash<T: ?Sized + Hash>(t: &T) -> u64 {
     }
 }
 
+#[cfg(feature = "verif-hooks")]
+pub(crate) fn verif_hash<T: ?Sized + Hash>(t: &T) -> u64 {
+    hash(t)
+}
+
 /// # Safety
 ///
 /// Must be called with valid arrays in a CaoHashMap
